@@ -18,7 +18,7 @@ impl Prop for C05 {
         "C05"
     }
     fn rule(&self) -> String {
-        "generated: networks biased to disconnected and one-way shapes (two components, chains, sparse random, stars with missing spokes) x edge-local allow lists x Dijkstra / A* with any weight factor (incl. > 1) x forward/reverse x vertex/edge orientation x with/without destination; history-independent non-negative costs. Oracle: depth-first reachability over allowed edges on the reference graph; the destination-less tree must have exactly the reachable vertices as keys, each labelled (sum of costs up the parent chain) with the label-correcting reference optimum over the implementation's own edge costs. non-trivial = unreachable destination although the origin can reach other vertices, or a reachable destination while some edge is forbidden, or a tree with >= 3 vertices in a graph with an unreachable vertex".to_string()
+        "generated: networks biased to disconnected and one-way shapes (two components, chains, sparse random, stars with missing spokes) x edge-local allow lists (harness frontier model, or the application's road-class model built from a class file with class ids over the whole u8 range) x Dijkstra / A* with any weight factor (incl. > 1) x forward/reverse x vertex/edge orientation x with/without destination; history-independent non-negative costs. Oracle: depth-first reachability over allowed edges on the reference graph; the destination-less tree must have exactly the reachable vertices as keys, each labelled (sum of costs up the parent chain) with the label-correcting reference optimum over the implementation's own edge costs. non-trivial = unreachable destination although the origin can reach other vertices, or a reachable destination while some edge is forbidden, or a tree with >= 3 vertices in a graph with an unreachable vertex".to_string()
     }
     fn cases(&self, tier: Tier) -> u32 {
         tier.pick(80_000, 3_000_000)
@@ -92,7 +92,55 @@ impl Prop for C05 {
             Ok(b) => b,
             Err(_) => return o,
         };
-        let si = &built.si;
+        // with an edge restriction, every other case expresses it through the application's
+        // road-class model (class file + per-query class list through the frontier builder, class
+        // ids from the whole u8 range) instead of the harness frontier: same allowed set
+        let real_frontier = case.spec.allowed.is_some() && (case.o + case.spec.net.m()) % 2 == 0;
+        o.label_if(real_frontier, "restriction-through-the-road-class-model");
+        let swapped;
+        let si = if real_frontier {
+            const PERMITTED: [u8; 4] = [1, 64, 130, 255];
+            const OTHER: [u8; 4] = [0, 65, 2, 200];
+            let m = case.spec.net.m();
+            let dir = crate::engine::CaseDir::new();
+            let text: String = (0..m)
+                .map(|e| format!("{}\n", if case.spec.edge_allowed(e) { PERMITTED[e % 4] } else { OTHER[e % 4] }))
+                .collect();
+            let cp = dir.file("classes.txt");
+            if crate::appbuild::write_text(&cp, &text, false).is_err() {
+                return o;
+            }
+            thread_local! {
+                static BUILDER: routee_compass::app::compass::config::compass_app_builder::CompassAppBuilder =
+                    routee_compass::app::compass::config::compass_app_builder::CompassAppBuilder::default();
+            }
+            let cfg = json!({"type": "road_class", "road_class_input_file": cp.to_string_lossy().to_string()});
+            let model = BUILDER.with(|b| {
+                b.build_frontier_model_service(&cfg)
+                    .map_err(|e| e.to_string())
+                    .and_then(|svc| svc.build(&json!({"road_classes": PERMITTED}), built.si.state_model.clone()).map_err(|e| e.to_string()))
+            });
+            match model {
+                Ok(fm) => {
+                    swapped = routee_compass_core::algorithm::search::search_instance::SearchInstance {
+                        directed_graph: built.si.directed_graph.clone(),
+                        state_model: built.si.state_model.clone(),
+                        traversal_model: built.si.traversal_model.clone(),
+                        access_model: built.si.access_model.clone(),
+                        cost_model: built.si.cost_model.clone(),
+                        frontier_model: fm,
+                        termination_model: built.si.termination_model.clone(),
+                    };
+                    &swapped
+                }
+                Err(e) => {
+                    o.fail("C05/road-class-model/valid-configuration-rejected", json!({"error": e}));
+                    return o;
+                }
+            }
+        } else {
+            &built.si
+        };
         let allowed = |e: usize| case.spec.edge_allowed(e);
         let (s_v, t_v) = case.vertex_endpoints();
         let reach = g.reach(s_v, &allowed);
